@@ -271,7 +271,7 @@ def main(tier: str) -> int:
     if not cxxlab.tools_available():
         raise common.Inconclusive('g++ / clang++-14 not available')
     run = common.Run(PROP, tier, level='exploration')
-    n = 14 if tier == 'quick' else 120
+    n = 14 if tier == 'quick' else 300
     scratch = run.scratch()
     run.require('tu_alone', 'tu_twice', 'tu_orders', 'programs_linked', 'programs_run',
                 'tu_two_shells', 'programs_coexist', 'kind_global-component', 'kind_random-mc')
